@@ -33,6 +33,8 @@ type RunResult struct {
 	Other       []Violation         `json:"other_oracles,omitempty"` // oracles not owned by the property under check
 	States      int                 `json:"states"`
 	StateSet    []uint64            `json:"-"`
+	StateHashes []uint64            `json:"state_hashes,omitempty"`
+	Plan        string              `json:"plan,omitempty"`
 	Preempt     int                 `json:"preemptions"`
 	Tapes       map[string][]uint32 `json:"tapes,omitempty"`
 	Desc        any                 `json:"desc,omitempty"` // program / config description (samples, replays)
